@@ -200,3 +200,24 @@ CHECKS = {
                 'inside mindsdb_sql/ and sly/ only.',
     },
 }
+
+
+# additions of the sixth wave (appended to the technique texts above)
+TECH_ADD = {
+    'C01': '; bounded-exhaustive CREATE TABLE column x key-list family and nested set operations with their own WITH / USING in 39 contexts',
+    'C02': '; keywords of the production-pair sentences re-spelled with the non-ASCII letters re.IGNORECASE equates with i / s / k',
+    'C03': '; layout variants (newlines, tabs, block and line comments between the tokens)',
+    'C04': '; identifier paths also in function-name position',
+    'C06': '; bounded-exhaustive ORDER BY direction x NULLS matrix; drawn histories of statements rendered by one renderer object (incl. refused ones) before the judged statement',
+    'C07': '; every node position also inside value-preserving wrappers (function argument, argument in front of FROM, CASE result)',
+    'C08': '; ORDER BY item forms (positions, aliases, expressions) random and enumerated; qualifiers of JoinStep / QueryStep must name a frame',
+    'C11': '; qualified stars, WITH inside derived tables / join operands / sub-selects / in front of parenthesised set operations',
+    'C12': '; statements without placeholders are prepared, executed and executed again too',
+    'C13': '; nodes in open positions (LIMIT / OFFSET ...) that the walker shows to the visitor are replaced too',
+    'C14': '; non-constant BETWEEN / IN operands, same-named models in two projects, ON clauses read in the JoinStep',
+    'C17': '; type and function catalogues read from SQLAlchemy (every registered function class x 16 argument-list shapes)',
+    'C18': '; odd quoted name parts; one statement planned under catalogs that differ only in what the models are (steps of different classes compared)',
+    'C20': '; one predictor-metadata object planned under two predictor namespaces; renderers built from shared dialect classes',
+}
+for _k, _v in TECH_ADD.items():
+    CHECKS[_k]['technique'] += _v
